@@ -755,6 +755,63 @@ theorem matmulDia_abs (L Rm : Dia R) (scale : R) (hdim : L.cols = Rm.rows)
 
 end diaMatmulThm
 
+/-! ### `transpose_dia` / `adjoint_dia` -/
+section diaTransposeThm
+variable {R : Type} [CommSemiring R]
+
+theorem find_reverse_eq_find (ds : List (Int × (Nat → R))) (h : (ds.map (·.1)).Nodup) (o : Int) :
+    ds.reverse.find? (fun d => d.1 == o) = ds.find? (fun d => d.1 == o) := by
+  induction ds with
+  | nil => rfl
+  | cons d ds ih =>
+    rw [List.map_cons, List.nodup_cons] at h
+    rw [List.reverse_cons, List.find?_append, List.find?_cons]
+    by_cases hd : d.1 = o
+    · have hnone : ds.reverse.find? (fun d => d.1 == o) = none := by
+        rw [List.find?_eq_none]
+        intro x hx hxo
+        have : x.1 = o := by simpa using hxo
+        exact h.1 (List.mem_map.mpr ⟨x, List.mem_reverse.mp hx, by rw [this, hd]⟩)
+      simp [hnone, hd]
+    · have : (d.1 == o) = false := by simpa using hd
+      simp only [this]
+      rw [ih h.2]
+      simp [hd]
+
+/-- **`transpose_dia` / `adjoint_dia` give the (conjugate) transpose**: entry (i, j) of the result is `f` of entry
+(j, i) of the operand, for every diagonal-format matrix with distinct stored offsets in any order, whatever is stored
+outside the rectangle. -/
+theorem mapTransposeDia_abs (f : R → R) (hf : f 0 = 0) (m : Dia R) (h : (m.diags.map (·.1)).Nodup)
+    (i j : Nat) (hi : i < m.cols) (hj : j < m.rows) :
+    (mapTransposeDia f m).abs i j = f (m.abs j i) := by
+  unfold Dia.abs mapTransposeDia
+  simp only [List.map_reverse, List.reverse_reverse]
+  rw [List.find?_map, find_reverse_eq_find m.diags h]
+  have hp : ((fun (d : Int × (Nat → R)) => d.1 == (j : Int) - (i : Int)) ∘ fun (d : Int × (Nat → R)) =>
+      (-d.1, fun (j : Nat) => if (j : Int) < -d.1 ∨ (j : Int) + d.1 ≥ (m.cols : Int) then 0 else f (d.2 ((j : Int) + d.1).toNat)))
+      = fun d => d.1 == (i : Int) - (j : Int) := by
+    funext d
+    simp only [Function.comp]
+    by_cases hd : d.1 = (i : Int) - (j : Int)
+    · have : -d.1 = (j : Int) - (i : Int) := by omega
+      simp [hd, this]
+    · have : ¬ -d.1 = (j : Int) - (i : Int) := by omega
+      simp [hd, this]
+  rw [hp]
+  cases hfind : m.diags.find? (fun d => d.1 == (i : Int) - (j : Int)) with
+  | none => simp [hf]
+  | some d =>
+    have hd : d.1 = (i : Int) - (j : Int) := by
+      have := List.find?_some hfind
+      simpa using this
+    simp only [Option.map_some]
+    have hcond : ¬ ((j : Int) < -d.1 ∨ (j : Int) + d.1 ≥ (m.cols : Int)) := by omega
+    rw [if_neg hcond]
+    have : ((j : Int) + d.1).toNat = i := by omega
+    rw [this]
+
+end diaTransposeThm
+
 /-- **a specialisation constructed by inserting conversions computes the same operation**: if the
 registered implementation refines `f` on the meanings and every converter preserves the meaning, so
 does the constructed one — for every requested combination of operand and output formats -/
